@@ -280,7 +280,7 @@ def run_assembly(repo, R, tier, rules_prefix=""):
         "one": [1, 2, 3],
         "two_symm": [1, 2, 3],
         "two_asymm": [(1, 1), (2, 1), (1, 2), (2, 2)],
-        "four_symm": [1, 2],
+        "four_symm": [1, 2, 3],  # three distinct shells make all eight symmetry-related index tuples distinct
     }
     if tier == "thorough":
         bounds = {"one": [1, 2, 3, 4], "two_symm": [1, 2, 3, 4], "two_asymm": [(1, 1), (2, 1), (1, 2), (2, 2), (3, 2), (2, 3), (3, 3)],
